@@ -72,6 +72,8 @@ enum Op {
     Incr { d: i64, ts: Option<u64> },
     IfAbs { v: Val },
     Patch { c: i64, ts: Option<u64> },
+    /// range_query over the scan keys `r<id>`
+    Range { lo: u64, hi: u64, limit: usize },
 }
 
 fn ts_text(ts: &Option<u64>) -> String {
@@ -88,6 +90,7 @@ impl Op {
             Op::Incr { d, ts } => format!("incr {} {}", d, ts_text(ts)),
             Op::IfAbs { v } => format!("ifabs {}", v.text()),
             Op::Patch { c, ts } => format!("patch {} {}", c, ts_text(ts)),
+            Op::Range { lo, hi, limit } => format!("range {} {} {}", lo, hi, limit),
         }
     }
     fn exec(&self, store: &FeoxStore, key: &[u8]) -> String {
@@ -136,6 +139,16 @@ impl Op {
             Op::IfAbs { v } => match store.insert_if_absent(key, &v.encode()) {
                 Ok(true) => "swapped".into(),
                 Ok(false) => "notSwapped".into(),
+                Err(x) => e(x),
+            },
+            Op::Range { lo, hi, limit } => match store.range_query(&scan_key(*lo), &scan_key(*hi), *limit) {
+                Ok(rows) => {
+                    let ids: Vec<String> = rows.iter().map(|(k, v)| {
+                        let id = scan_id(k);
+                        if v != &scan_val(id) { format!("{}!", id) } else { id.to_string() }
+                    }).collect();
+                    format!("range {}", ids.join(" ")).trim_end().to_string()
+                }
                 Err(x) => e(x),
             },
             Op::Patch { c, ts } => {
@@ -617,6 +630,99 @@ fn word_run(rng: &mut Rng, out: &mut Out) {
     for _ in 0..(pins + reading) { rec.verif_extent_release(); }
 }
 
+// ---------------------------------------------------------------- C14: a range scan racing with writers
+
+fn scan_key(id: u64) -> Vec<u8> { format!("r{:03}", id).into_bytes() }
+fn scan_id(k: &[u8]) -> u64 { String::from_utf8_lossy(&k[1..]).parse().unwrap_or(999) }
+fn scan_val(id: u64) -> Vec<u8> { pattern(id as u8, 20 + (id as usize % 7) * 700) }
+
+/// one range_query parked at every iteration while the main thread inserts and deletes keys
+/// around it; the index at each instant goes to the Lean scan model, which must predict when the
+/// scan returns and what; independently: ascending, in bounds, at most limit, stable keys exactly
+/// once, absent keys never
+fn scan_case(rng: &mut Rng, out: &mut Out, ctl: &Arc<Ctl>, dir: &str, idx: u64) {
+    feoxdb::verif::clock::unpin();
+    let cfg = Config { mem: rng.chance(1, 2), cache: rng.chance(1, 2) };
+    let path = format!("{}/scan{}.feox", dir, idx);
+    let store = match open(&cfg, &path) { Ok(s) => Arc::new(s), Err(_) => return };
+    let universe = rng.range(6, 40);
+    let mut present: Vec<bool> = (0..universe).map(|_| rng.chance(1, 2)).collect();
+    for id in 0..universe { if present[id as usize] { let _ = store.insert(&scan_key(id), &scan_val(id)); } }
+    if !cfg.mem && rng.chance(1, 2) { let _ = store.flush(); }
+    let mut touched = vec![false; universe as usize];
+    let mut ever = present.clone();
+    let (lo, hi) = if rng.chance(1, 6) { (rng.below(universe), rng.below(universe + 2)) } else { (rng.below(universe / 2), universe / 2 + rng.below(universe / 2 + 2)) };
+    let limit = *rng.pick(&[1usize, 2, 3, 100, 100, 100]);
+    let ids_now = |st: &FeoxStore| -> String { st.verif_tree_keys().iter().map(|k| scan_id(k).to_string()).collect::<Vec<_>>().join(" ") };
+    {
+        let mut g = ctl.slots.lock().unwrap();
+        g.clear();
+        g.push(Slot { phase: Phase::Idle, permit: false, cmd: None, exit: false });
+    }
+    let h = { let c = ctl.clone(); let st = store.clone(); std::thread::spawn(move || worker(0, c, st)) };
+    let before = ids_now(&store);
+    let mut ph = ctl.call(0, Op::Range { lo, hi, limit }, vec![]);
+    let answer = |ph: &Option<Phase>| -> String { match ph { Some(Phase::AtPoint(_)) => "at".into(), Some(Phase::Returned(r)) => r.replacen("range", "ret", 1), _ => "stuck".into() } };
+    out.emit(format!("scan new {} {} {} {}", lo, hi, limit, before).trim_end().to_string(), answer(&ph));
+    let mut steps = 0;
+    while let Some(Phase::AtPoint(_)) = ph {
+        // writers move around the scan
+        for _ in 0..rng.below(4) {
+            let id = rng.below(universe);
+            touched[id as usize] = true;
+            if present[id as usize] && rng.chance(1, 2) {
+                if store.delete(&scan_key(id)).is_ok() { present[id as usize] = false; }
+            } else {
+                let _ = store.insert(&scan_key(id), &scan_val(id));
+                present[id as usize] = true;
+                ever[id as usize] = true;
+            }
+        }
+        let now = ids_now(&store);
+        ph = ctl.resume(0);
+        out.emit(format!("scan step {}", now).trim_end().to_string(), answer(&ph));
+        steps += 1;
+        if steps > 200 { break; }
+    }
+    out.count("scan case");
+    out.count(&format!("scan steps {}", if steps > 8 { "9+".to_string() } else { steps.to_string() }));
+    match ph {
+        Some(Phase::Returned(r)) => {
+            ctl.consume(0);
+            let ids: Vec<u64> = r.split(' ').skip(1).filter_map(|x| x.trim_end_matches('!').parse().ok()).collect();
+            let mut bad: Option<String> = None;
+            if r.contains('!') { bad = Some(format!("a returned value is not the key's value: {}", r)); }
+            if ids.windows(2).any(|w| w[0] >= w[1]) { bad = Some(format!("result not strictly ascending: {:?}", ids)); }
+            if ids.iter().any(|i| *i < lo || *i > hi) { bad = Some(format!("result outside the bounds {}..={}: {:?}", lo, hi, ids)); }
+            if ids.len() > limit { bad = Some(format!("more than limit={} results: {:?}", limit, ids)); }
+            if let Some(i) = ids.iter().find(|i| !ever[**i as usize]) { bad = Some(format!("key {} was never in the store during the scan but is in the result", i)); }
+            // stable keys inside the window the scan covered
+            let window_end = if ids.len() >= limit { *ids.last().unwrap_or(&0) } else { hi.min(universe - 1) };
+            for id in lo..=window_end.min(universe - 1) {
+                let stable = !touched[id as usize] && present[id as usize];
+                if stable && !ids.contains(&id) && bad.is_none() && lo <= hi {
+                    bad = Some(format!("key {} was present and untouched for the whole scan and lies inside the returned window {}..={} but is missing from {:?}", id, lo, window_end, ids));
+                }
+            }
+            if let Some(b) = bad {
+                out.failures.push(format!("C14\tscan case {}: {}\t-", idx, b));
+            }
+        }
+        _ => out.failures.push(format!("C18\tscan case {}: the range query did not return\t-", idx)),
+    }
+    {
+        let mut g = ctl.slots.lock().unwrap();
+        g[0].exit = true;
+        g[0].permit = true;
+        ctl.cv.notify_all();
+    }
+    let t9 = Instant::now();
+    while !h.is_finished() && t9.elapsed() < WATCHDOG { std::thread::sleep(Duration::from_millis(1)); }
+    if h.is_finished() { let _ = h.join(); }
+    drop(store);
+    let _ = std::fs::remove_file(&path);
+}
+
 // ---------------------------------------------------------------- C18: contention under a watchdog
 
 /// unscheduled writers, readers and concurrent flush() callers on a small (filling) or failing
@@ -636,7 +742,12 @@ fn contend_case(rng: &mut Rng, out: &mut Out, wl: &Arc<WriteLog>, dir: &str, idx
     };
     out.count(match (small, failing) { (true, true) => "contend small+failing device", (true, false) => "contend small (filling) device", (false, true) => "contend failing device", _ => "contend healthy device" });
     wl.seen.store(0, O::SeqCst);
-    wl.fail_after.store(if failing { rng.range(3, 40) } else { 0 }, O::SeqCst);
+    let fa = if failing { rng.range(3, 60) } else { 0 };
+    wl.fail_after.store(fa, O::SeqCst);
+    // half of the failing devices recover after a short burst of failed writes / fsyncs
+    let transient = failing && rng.chance(2, 3);
+    wl.fail_until.store(if transient { fa + rng.range(1, 12) } else { u64::MAX }, O::SeqCst);
+    if transient { out.count("contend transient failure burst"); }
     let keys: Vec<Vec<u8>> = (0..3).map(|i| format!("c{}-{}", idx, i).into_bytes()).collect();
     let mut handles = vec![];
     let nops = rng.range(50, 300);
@@ -751,6 +862,8 @@ struct WriteLog {
     gate_cv: Condvar,
     /// fail every device write / fsync once this many writes have been seen (0 = never)
     fail_after: std::sync::atomic::AtomicU64,
+    /// … until this many have been seen (the device recovers)
+    fail_until: std::sync::atomic::AtomicU64,
     seen: std::sync::atomic::AtomicU64,
 }
 
@@ -768,7 +881,10 @@ impl feoxdb::verif::io::Observer for WriteLog {
         let fa = self.fail_after.load(std::sync::atomic::Ordering::SeqCst);
         if fa > 0 && matches!(kind, K::Write | K::Fsync) {
             let n = self.seen.fetch_add(1, std::sync::atomic::Ordering::SeqCst);
-            if n >= fa {
+            if n >= fa && n < self.fail_until.load(std::sync::atomic::Ordering::SeqCst) {
+                // a failing device is also a slow one: the caller sits in its I/O (holding whatever
+                // it holds) for a while before the error comes back
+                std::thread::sleep(Duration::from_millis(2));
                 return feoxdb::verif::io::Decision::FailBefore;
             }
         }
@@ -1003,11 +1119,14 @@ fn main() {
     let get = |k: &str, d: u64| -> u64 { args.extra.iter().find_map(|e| e.strip_prefix(&format!("{}=", k)).map(|v| v.parse().unwrap())).unwrap_or(d) };
     let cases = get("cases", 200);
     let wl = Arc::new(WriteLog { enabled: std::sync::atomic::AtomicBool::new(false), writes: Mutex::new(vec![]), blocked: Mutex::new(vec![]), gate: Mutex::new((None, 0)), gate_cv: Condvar::new(),
-        fail_after: std::sync::atomic::AtomicU64::new(0), seen: std::sync::atomic::AtomicU64::new(0) });
+        fail_after: std::sync::atomic::AtomicU64::new(0), fail_until: std::sync::atomic::AtomicU64::new(u64::MAX), seen: std::sync::atomic::AtomicU64::new(0) });
     feoxdb::verif::io::set_observer(Some(wl.clone()));
     feoxdb::verif::proto::set_observer(Some(wl.clone()));
     for _ in 0..get("words", 0) {
         word_run(&mut rng, &mut out);
+    }
+    for i in 0..get("scans", 0) {
+        scan_case(&mut rng, &mut out, &ctl, &args.out, i);
     }
     for i in 0..get("contend", 0) {
         contend_case(&mut rng, &mut out, &wl, &args.out, i);
